@@ -16,4 +16,12 @@ PROPS = {
         assumptions=['ing_raw_on_success: an ingester returns a raw record whenever it reports success '
                      '(proved for the built-in ingester; required of caller-supplied ones)'],
     ),
+    'C08': dict(
+        harness='c08', props='Props/C08.v', models=['Model/Json.v', 'Model/Xml.v'],
+        trusted=['encoding/json Decoder.Token and encoding/xml Decoder.Token are modelled as the token stream determined by the document (jtokens / xtokens); the harness reads the same text with its own decoder and the model is compared against that stream on every case',
+                 'strconv.FormatFloat(v,\'f\',-1,64) / ParseFloat enter the theorems as Section variables; the harness supplies them as a table computed with strconv and asserts the round trip on every number'],
+        assumptions=['jwf: object keys pairwise distinct at every level (duplicate keys are folded into an array by the converter; encoding/json keeps the last)',
+                     'float_roundtrip: strconv.ParseFloat(strconv.FormatFloat(v,\'f\',-1,64)) = v for the numbers of the value (asserted by the harness on every number)',
+                     'uri_single_prefix (xml_prefix_in_scope only): no namespace URI is bound to two different prefixes in the document - known finding F11 outside it'],
+    ),
 }
